@@ -13,6 +13,8 @@
  *   conc - concurrent pushers / poppers / stealers on per-thread leaf buffers, shared mid buffers and a root store with
  *          yield injection at the hbbuffer sites: single ownership on pop (atomic owner word), conservation at the end,
  *          quiescent pop_best = maximum.
+ *   ltq  - the discipline of sched/ltq: HEAPS are stored in the bounded buffers, popped by priority, cut by heap_remove /
+ *          heap_split_and_steal and pushed back by several threads; oracle: every task comes out exactly once.
  * Client discipline follows the schedulers (lfq/lhq/pbq/ltq): tasks live in type-stable memory, push_all_by_priority is
  * only issued by the owner of a leaf buffer, shared buffers receive push_all. */
 #include "parsec/parsec_config.h"
@@ -383,6 +385,66 @@ static int run_conc(int argc, char **argv) {
     return vf_nviolations ? 1 : 0;
 }
 
+/* =================================================================== ltq pattern: heaps stored in hbbuffers */
+/* The only joint user of hbbuffer.c and maxheap.c (sched/ltq) keeps HEAPS in the bounded buffers, ordered by heap->priority;
+ * select pops a heap, removes / splits it and pushes the rest back; heap_remove frees a heap that became empty.  This mode
+ * replays that discipline with several threads: conservation of the tasks (every task out exactly once) is the oracle. */
+typedef struct { int nt; long rounds; uint64_t seed; parsec_hbbuffer_t *q[MAXT]; pthread_mutex_t mtx; parsec_heap_t *root[NPOOL]; int nroot; volatile long ops, built, removed, split, stolen; int per; } ltq_t;
+static ltq_t LQ;
+static void ltq_root_push(void *store, parsec_list_item_t *ring, int32_t distance) {
+    (void)store; (void)distance; pthread_mutex_lock(&LQ.mtx);
+    parsec_list_item_t *it = ring; do { parsec_list_item_t *nx = (parsec_list_item_t *)it->list_next; if (LQ.nroot < NPOOL) LQ.root[LQ.nroot++] = (parsec_heap_t *)it; it = nx; } while (it != ring);
+    pthread_mutex_unlock(&LQ.mtx);
+}
+static void ltq_push(parsec_hbbuffer_t *b, parsec_heap_t *h) { h->list_item.list_next = (parsec_list_item_t *)h; h->list_item.list_prev = (parsec_list_item_t *)h; parsec_hbbuffer_push_all(b, (parsec_list_item_t *)h, 0); }
+static void ltq_worker(int tid, int nt, void *arg) {
+    (void)arg; vf_rng_t r; vf_rng_seed(&r, LQ.seed, (uint64_t)tid + 700); int me = tid + 1;
+    elt_t *mine[NPOOL]; int nm = 0; long n = 0, built = 0, removed = 0, split = 0, stolen = 0;
+    for (int i = 0; i < LQ.per; i++) mine[nm++] = &pool[tid * LQ.per + i];
+    for (long k = 0; k < LQ.rounds && !vf_nviolations; k++) {
+        if (nm > 0 && vf_chance(&r, 400)) {                          /* schedule: a ring of ready tasks becomes one heap */
+            int c = 1 + (int)vf_randn(&r, nm < 5 ? (uint32_t)nm : 5); parsec_heap_t *h = heap_create();
+            for (int i = 0; i < c; i++) { elt_t *e = mine[--nm]; e->t.priority = (int)vf_randn(&r, 64); e->owner = 0; heap_insert(h, &e->t); }
+            __sync_synchronize(); ltq_push(LQ.q[tid], h); built++;
+        } else {                                                     /* select: own queue, then a victim's queue, then the system queue */
+            parsec_heap_t *h = (parsec_heap_t *)parsec_hbbuffer_pop_best(LQ.q[tid], offsetof(parsec_heap_t, priority)), *nw = NULL; parsec_task_t *t = NULL;
+            if (h) { t = heap_remove(&h); removed++; if (h) ltq_push(LQ.q[tid], h); }
+            else {
+                int v = (int)vf_randn(&r, (uint32_t)nt);
+                h = (parsec_heap_t *)parsec_hbbuffer_pop_best(LQ.q[v], offsetof(parsec_heap_t, priority));
+                if (!h) { pthread_mutex_lock(&LQ.mtx); if (LQ.nroot) h = LQ.root[--LQ.nroot]; pthread_mutex_unlock(&LQ.mtx); }
+                if (h) { t = heap_split_and_steal(&h, &nw); split++; stolen += v != tid; if (nw) ltq_push(LQ.q[v], nw); if (h) ltq_push(LQ.q[tid], h); }
+            }
+            if (t) { if (!take(ELT(t), me, "the heap")) break; mine[nm++] = ELT(t); }
+        }
+        n++; if ((n & 255) == 0) VF_TICK();
+    }
+    __sync_fetch_and_add(&LQ.ops, n); __sync_fetch_and_add(&LQ.built, built); __sync_fetch_and_add(&LQ.removed, removed); __sync_fetch_and_add(&LQ.split, split); __sync_fetch_and_add(&LQ.stolen, stolen);
+}
+static int run_ltq(int argc, char **argv) {
+    LQ.nt = (int)vf_arg_ll(argc, argv, "--threads", 4); if (LQ.nt > MAXT) LQ.nt = MAXT; LQ.rounds = vf_arg_ll(argc, argv, "--rounds", 100000); LQ.seed = (uint64_t)vf_arg_ll(argc, argv, "--seed", 1);
+    LQ.per = (int)vf_arg_ll(argc, argv, "--per-thread", 16); if (LQ.per * LQ.nt > NPOOL) LQ.per = NPOOL / LQ.nt;
+    int qsz = (int)vf_arg_ll(argc, argv, "--leaf", 4); static int dummy; pthread_mutex_init(&LQ.mtx, NULL);
+    for (int t = 0; t < LQ.nt; t++) LQ.q[t] = parsec_hbbuffer_new((size_t)qsz, 1, ltq_root_push, &dummy);
+    int total = LQ.per * LQ.nt; for (int i = 0; i < total; i++) pool[i].owner = i / LQ.per + 1;
+    vf_team_run(LQ.nt, ltq_worker, NULL);
+    long bad = 0, inheaps = 0;
+    if (!vf_nviolations) {
+        unsigned char cnt[NPOOL]; memset(cnt, 0, sizeof cnt);
+        for (int i = 0; i < total; i++) if (pool[i].owner) cnt[i]++;
+        for (int pass = 0; pass <= LQ.nt; pass++) for (;;) {
+            parsec_heap_t *h = NULL;
+            if (pass < LQ.nt) h = (parsec_heap_t *)parsec_hbbuffer_pop_best(LQ.q[pass], offsetof(parsec_heap_t, priority)); else if (LQ.nroot) h = LQ.root[--LQ.nroot];
+            if (!h) break;
+            int guard = 0; while (h && guard++ < NPOOL) { parsec_task_t *t = heap_remove(&h); if (!t || !is_elt(t)) { vf_violation("heap:foreign-node", "ltq: final drain met a foreign task pointer"); break; } cnt[ELT(t)->id]++; inheaps++; }
+        }
+        for (int i = 0; i < total; i++) if (cnt[i] != 1) bad++;
+        if (bad && !vf_nviolations) { int w = 0; while (cnt[w] == 1) w++; vf_violation(cnt[w] ? "ltq:task-in-two-places" : "ltq:task-lost", "ltq: after %ld operations %ld of %d tasks are not held exactly once (e.g. task %d: %d times)", LQ.ops, bad, total, w, cnt[w]); }
+    }
+    vf_out("{\"type\":\"summary\",\"mode\":\"ltq\",\"threads\":%d,\"tasks\":%d,\"ops\":%ld,\"heaps_built\":%ld,\"removes\":%ld,\"splits\":%ld,\"steals\":%ld,\"final_in_heaps\":%ld}", LQ.nt, total, LQ.ops, LQ.built, LQ.removed, LQ.split, LQ.stolen, inheaps);
+    return vf_nviolations ? 1 : 0;
+}
+
 int main(int argc, char **argv) {
     const char *mode = vf_arg(argc, argv, "--mode", "hbb");
     if (posix_memalign((void **)&pool, 64, sizeof(elt_t) * NPOOL)) return 2;
@@ -391,7 +453,7 @@ int main(int argc, char **argv) {
     sigcap = (size_t)vf_arg_ll(argc, argv, "--sigcap", 1 << 21); sigset = calloc(sigcap, sizeof(uint64_t));
     vf_yield_config((uint64_t)vf_arg_ll(argc, argv, "--seed", 1), (int)vf_arg_ll(argc, argv, "--yield", 0), (int)vf_arg_ll(argc, argv, "--yield-us", 0), 1ULL << PARSEC_VERIF_SITE_HBBUFFER);
     vf_heartbeat_start();
-    int rc = !strcmp(mode, "heap") ? run_heap(argc, argv) : !strcmp(mode, "conc") ? run_conc(argc, argv) : run_hbb(argc, argv);
+    int rc = !strcmp(mode, "ltq") ? run_ltq(argc, argv) : !strcmp(mode, "heap") ? run_heap(argc, argv) : !strcmp(mode, "conc") ? run_conc(argc, argv) : run_hbb(argc, argv);
     vf_heartbeat_stop();
     return rc;
 }
